@@ -45,6 +45,19 @@ def _bitop(op, a, b):
             b = int(b)
             if b < 0:
                 return op(realize(a), b)
+            if op is not ops.and_ and b > 0:
+                # (sym << k) | CONST / CONST_HI | sym_lo : disjoint bits, so | and ^ are +  (pure LIA, no div/mod terms)
+                for k in (8, 16, 24, 32):
+                    m = 1 << k
+                    if b % m == 0:
+                        if space.smt_fork(a.var < m, probability_true=0.9):
+                            return B.SymbolicInt(a.var + b)
+                    elif b < m:
+                        if space.smt_fork(a.var % m == 0, probability_true=0.9):
+                            return B.SymbolicInt(a.var + b)
+                        break
+            if b == 0:
+                return 0 if op is ops.and_ else a
             andv = _and_const(a.var, b)
             if op is ops.and_: return B.SymbolicInt(andv)
             if op is ops.or_: return B.SymbolicInt(a.var + b - andv)
